@@ -6,10 +6,15 @@ use std::sync::atomic::{AtomicUsize, Ordering};
 use std::sync::Arc;
 
 // the last three are names that occur inside the always-advertised `accept-encoding, range`
-const NAMES: [&str; 6] = ["x-lang", "x-size", "x-any", "accept", "accept-language", "encoding"];
-const DEFAULTS: [&str; 6] = ["d0", "d1", "d2", "d3", "d4", "d5"];
+// … and two rules whose classes have different lengths (the empty one included), so that different tuples can concatenate
+// to the same bytes: (`a`,`bc`) / (`ab`,`c`), (``,`x`) / (`x`,``)
+const NAMES: [&str; 8] = ["x-lang", "x-size", "x-any", "accept", "accept-language", "encoding", "x-first", "x-second"];
+const DEFAULTS: [&str; 8] = ["d0", "d1", "d2", "d3", "d4", "d5", "", "c"];
 
 fn transform(i: usize, v: &str) -> String {
+    if i >= 6 {
+        return v.chars().take(2).collect();
+    }
     match i % 3 {
         0 => v.chars().take(1).collect(),
         1 => if v.len() < 3 { "s".into() } else { "l".into() },
@@ -34,7 +39,7 @@ impl Group for Serve {
         "c05.serve"
     }
     fn rule(&self) -> &'static str {
-        "up to 3 vary rules with many-to-few transformations (first character, short/long, constant) and defaults on one cached page; 2-7 requests whose header values are present / absent / non-UTF-8 / in the same class / in different classes, in ALL orders of 4 requests for a sample (quick) and random orders otherwise, through handle_cache; the handler returns the transformed tuple it computed itself and counts invocations; per request: which variant came back and whether the handler ran, plus the vary header, compared with the model; oracle: body = f(transform(header)) (the request's own tuple), one computation per distinct tuple; non-trivial = at least two distinct tuples"
+        "up to 3 vary rules with many-to-few transformations (first character, short/long, constant; first two characters with an empty default, so that different tuples concatenate to the same bytes) and defaults on one cached page; 2-7 requests whose header values are present / absent / non-UTF-8 / in the same class / in different classes, in ALL orders of 4 requests for a sample (quick) and random orders otherwise, through handle_cache; the handler returns the transformed tuple it computed itself and counts invocations; per request: which variant came back and whether the handler ran, plus the vary header, compared with the model; oracle: body = f(transform(header)) (the request's own tuple), one computation per distinct tuple; non-trivial = at least two distinct tuples"
     }
     fn generate(&self, ctx: &Ctx, rng: &mut Rng) -> Vec<String> {
         let mut v = Vec::new();
@@ -54,6 +59,20 @@ impl Group for Serve {
         for p in &perms {
             let reqs: Vec<Vec<&str>> = p.iter().map(|i| base[*i].clone()).collect();
             v.push(mk("01", &reqs));
+        }
+        // tuples that differ only in where one value ends and the next begins, in every order of four requests
+        let amb: Vec<Vec<&str>> = vec![vec!["a", "bc"], vec!["ab", "c"], vec!["", "ab"], vec!["ab", ""]];
+        for p in &perms {
+            let mut reqs: Vec<Vec<&str>> = p.iter().map(|i| amb[*i].clone()).collect();
+            reqs.extend(amb.iter().cloned());
+            v.push(mk("67", &reqs));
+        }
+        let amb_vals = ["a", "ab", "bc", "c", "", "b", "abc", "~"];
+        for _ in 0..(if ctx.mode == Mode::Quick { 60 } else { 2000 }) {
+            let mask = *rng.pick(&["67", "67", "670", "7"]);
+            let k = rng.range(3, 7);
+            let reqs: Vec<Vec<&str>> = (0..k).map(|_| (0..mask.len()).map(|_| *rng.pick(&amb_vals)).collect()).collect();
+            v.push(mk(mask, &reqs));
         }
         let n = if ctx.mode == Mode::Quick { 600 } else { 20_000 };
         for _ in 0..n {
